@@ -461,3 +461,46 @@ Definition msgdesc_ok (sc : schema) (fs : msgdesc) : bool :=
   && nodupZ (flat_map field_tags fs).
 
 Definition schema_ok (sc : schema) : bool := forallb (msgdesc_ok sc) sc.
+
+(* ---------------------------------------------------------------- well-known wrapper impls (pilota/src/prost/types.rs) *)
+(* impl Message for bool / u32 / u64 / i32 / i64 / f32 / f64 / String / Vec<u8> / Bytes: field 1 goes through
+   the codec module named there ([Some m]), every other field is skipped; impl Message for (): everything is
+   skipped ([None]).  The value is the bare scalar. *)
+Definition wrapper_merge_field (m : option codec_module) (x : val) (tag : Z) (wt : wire_type) (ctx : Z) : M val :=
+  match m with
+  | Some m' => if tag =? 1 then merge_scalar m' wt else let+ _ := skip_field depth_fuel wt tag ctx in ret x
+  | None => let+ _ := skip_field depth_fuel wt tag ctx in ret x
+  end.
+
+Definition wrapper_default (m : option codec_module) : val :=
+  match m with
+  | Some m' => if is_len_mod m' then VB [] else VI 0
+  | None => VL NMsg []
+  end.
+
+Definition wrapper_merge (m : option codec_module) (x : val) : M val :=
+  while_rem 0 (fun x => let+ (tag, wt) := decode_key in wrapper_merge_field m x tag wt ctx_default) x.
+Definition wrapper_decode (m : option codec_module) : M val := wrapper_merge m (wrapper_default m).
+Definition wrapper_decode_length_delimited (m : option codec_module) : M val :=
+  message_merge (wrapper_merge_field m) LengthDelimited (wrapper_default m) ctx_default.
+
+(* encode_raw / encoded_len write nothing when `*self` is false / == 0 / == 0.0 (float ==: -0.0 too) / empty *)
+Definition wrapper_is_default (m : option codec_module) (v : val) : bool :=
+  match m, v with
+  | Some MFloat, VI z => (z =? 0) || (z =? 2 ^ 31)
+  | Some MDouble, VI z => (z =? 0) || (z =? 2 ^ 63)
+  | Some _, VI z => z =? 0
+  | Some _, VB [] => true
+  | None, _ => true
+  | _, _ => false
+  end.
+Definition wrapper_enc (m : option codec_module) (v : val) : list byte :=
+  match m with
+  | Some m' => if wrapper_is_default m v then [] else encode_scalar m' 1 v
+  | None => []
+  end.
+Definition wrapper_len (m : option codec_module) (v : val) : Z :=
+  match m with
+  | Some m' => if wrapper_is_default m v then 0 else match m' with MBool => 2 | _ => encoded_len_scalar m' 1 v end
+  | None => 0
+  end.
